@@ -251,6 +251,7 @@ def handleCall (s : State) (pid : Nat) (fnExists : Nat → Bool) (run : Nat → 
       match run builtinId with
       | none => (s, .fail)
       | some r =>
+        let s := noteAccess s parameter
         match r.allocs parameter with
         | none => (s, .fail)
         | some ds =>
@@ -603,5 +604,56 @@ def notifyAwaiters (s : State) (pid : Nat) : State :=
     | some (.ok v) => notifyAll pid v s (awaitersOf s pid)
     | _ => s
   | none => s
+
+/-! ### the roots a finished process leaves behind (finding F17, candidate repair
+`notes/C06-fixes/01-release-dead-roots.patch`)
+
+At HEAD a finished process keeps everything it still roots for the life of the worker: operands
+beneath the result (a tail call inside a tuple field abandons the fields built so far; an error exit
+abandons the whole stack and the locals), unreceived or later-arriving messages, the select state and
+awaited results of a select cut short by an error. All of it stays counted AND reachable (the
+accounting equation holds), but nothing can ever use it. The functions below model the repaired
+code; the driver switches them on when the source under test contains `release_dead_roots`. -/
+
+def insertStored (e : Nat × Val) : List (Nat × Val) → List (Nat × Val)
+  | [] => [e]
+  | x :: xs => if e.1 ≤ x.1 then e :: x :: xs else x :: insertStored e xs
+
+/-- the stored awaited results, ordered by target (`stored.sort_by_key`) -/
+def storedSorted : List (Nat × Option Val) → List (Nat × Val)
+  | [] => []
+  | (t, some v) :: rest => insertStored (t, v) (storedSorted rest)
+  | (_, none) :: rest => storedSorted rest
+
+/-- what `release_dead_roots` releases, in its order -/
+def deadRoots (p : Proc) : List Val :=
+  p.stack.reverse ++
+    (if p.persistent then []
+     else p.locals ++ p.mailbox ++ selVals p.selectState ++ (storedSorted p.awaiting).map (·.2))
+
+/-- the process after `release_dead_roots` -/
+def withoutDeadRoots (p : Proc) : Proc :=
+  if p.persistent then { p with stack := [] }
+  else { p with stack := [], locals := [], mailbox := [], selectState := none, awaiting := [] }
+
+/-- `release_dead_roots` -/
+def releaseDeadRoots (s : State) (pid : Nat) : State :=
+  match s.getProc pid with
+  | none => s
+  | some p => releaseList (s.setProc pid (withoutDeadRoots p)) (deadRoots p)
+
+/-- `deliverable` of the repaired `notify_message` -/
+def deliverable (p : Proc) : Bool :=
+  match p.result with
+  | none => true
+  | some (.ok _) => p.persistent
+  | some .err => false
+
+/-- the repaired `notify_message`: a message for an unknown process, or for one that has finished
+and cannot be resumed, is dropped BEFORE its heap data is copied in -/
+def notifyMessageGuarded (s : State) (id : Nat) (message : Val) (heap : List Bytes) : State × Out :=
+  match s.getProc id with
+  | some p => if deliverable p then notifyMessage s id message heap else (s, .ok)
+  | none => (s, .ok)
 
 end QM.Heap
